@@ -12,6 +12,7 @@ import (
 	"fmt"
 	"io"
 	"log/slog"
+	"os"
 	"runtime/debug"
 	"sync"
 	"testing"
@@ -72,6 +73,9 @@ func Run(t *testing.T, x *mc.X, body func(w *World)) {
 	var stack []byte
 	synctest.Test(t, func(t *testing.T) {
 		w := &World{T: t, X: x, Net: vnet.New(), Rand: &CounterReader{}, Log: Discard}
+		if os.Getenv("VERIF_DEBUG") != "" {
+			w.Log = slog.New(slog.NewTextHandler(os.Stderr, &slog.HandlerOptions{Level: slog.LevelDebug}))
+		}
 		w.Clock = NewClock(w)
 		w.Net.Now = w.Clock.Now
 		curClock.Store(w.Clock)
